@@ -5,8 +5,8 @@
     (slice indexing, range slicing, unsigned subtraction, the panicking hex decoder of the
     scalar library) are never reached with an argument on which they unwind. *)
 From Coq Require Import ZArith List Bool.
-From ACV Require Import Model.Res Model.Bytes Model.ClaimCodec Model.Skeleton.
-From ACV Require Import Proofs.TotalP Proofs.SkeletonP.
+From ACV Require Import Model.Res Model.Bytes Model.ClaimCodec Model.Skeleton Model.SkelCreate.
+From ACV Require Import Proofs.TotalP Proofs.SkeletonP Proofs.SkelCreateP.
 Import ListNotations.
 
 (** claim parsing and scalar unpacking: every byte string / every scalar *)
@@ -60,6 +60,27 @@ Example C20_skeleton_accepts_something :
   /\ verify PS all_pass S P' = Err.      (* ... and in PS already by the index walk *)
 Proof. repeat split; vm_compute; reflexivity. Qed.
 
+(** Presentation::create on a verifier-supplied schema: every credential map and every list of
+    statements (dangling or mistyped references, claim indices beyond the credential, issuer
+    schemas with fewer labels than the credential has claims, equality statements with no, one
+    or many references, a range statement before or after its commitment statement, membership
+    credentials under signature ids, ...) and every outcome of the builders' own tests.  The two
+    hypotheses are datatype invariants of the IndexMaps involved (unique keys). *)
+Theorem C20_create_total : forall (creds : list (nat * cred)) (S0 : list cstmt),
+  NoDup (map fst creds) -> (forall s, In s S0 -> NoDup (map fst (c_refs s))) ->
+  forall Orc, create creds S0 Orc <> Panic.
+Proof. exact create_no_panic. Qed.
+
+Example C20_create_skeleton_accepts_something :
+  let creds := [(0%nat, CredSig [false; false; true])] in
+  let S0 := [Build_cstmt 0 KSig 0 0 0 0 [] [7%nat] [5%nat; 7%nat; 9%nat] 3;
+             Build_cstmt 1 KRange 1 2 0 2 [] [] [] 0;
+             Build_cstmt 2 KComm 2 0 0 2 [] [] [] 0] in
+  create creds S0 all_pass_c = Ok tt
+  /\ create creds (firstn 2 S0) all_pass_c = Err.     (* the range statement's commitment statement is missing *)
+Proof. split; vm_compute; reflexivity. Qed.
+
+Print Assumptions C20_create_total.
 Print Assumptions C20_from_text_total.
 Print Assumptions C20_verify_total.
 Print Assumptions C20_structural_reject_is_final.
